@@ -69,10 +69,62 @@ if not (np.finfo(LD).nmant >= 63 and abs(float(LD_PI - 4 * np.arctan(LD(1)))) < 
 # shared helpers
 
 
+def _hh(*parts):
+    import hashlib
+    return int(hashlib.blake2b(":".join(str(p) for p in parts).encode(), digest_size=8).hexdigest(), 16)
+
+
+def _build(spec):
+    """gen.build plus the 'mid' recipe of the mid-range enumerations: an ordinary record of n samples (noise x envelope on a floor,
+    sines + noise, walk + noise), non-zero mean, no all-zero stretch, distinct values in every stretch."""
+    if spec["k"] != "mid":
+        return gen.build(spec)
+    n = int(spec["n"])
+    rs = np.random.RandomState(int(spec["seed"]) % (2 ** 31 - 1))
+    t = np.arange(n, dtype=float)
+    u = t / max(1, n - 1)
+    fam = spec.get("fam", 0) % 3
+    if fam == 0:
+        xx = (t + 1.0) / n
+        env = (xx ** 2) * np.exp(-6.0 * xx)
+        a = 3.0 * rs.standard_normal(n) * (0.05 + env / env.max()) + 0.37 + 0.2 * u
+    elif fam == 1:
+        a = (2.0 * np.sin(2 * np.pi * 7.3 * u + 0.4) + 1.1 * np.sin(2 * np.pi * t / 41.7) + 0.6 * np.sin(2 * np.pi * t / 9.3 + 1.0)
+             + 0.3 * rs.standard_normal(n) + 0.61)
+    else:
+        w = np.cumsum(rs.standard_normal(n))
+        a = 3.0 * w / max(1e-9, float(np.max(np.abs(w)))) + 0.4 * rs.standard_normal(n) + 0.25
+    return np.ascontiguousarray(a * 10.0 ** spec.get("amp", 0), dtype=float)
+
+
+def _mid_spec(n, tag, as_=None, amp=0):
+    h = _hh(gen.run_seed(), "rec", tag, n)
+    spec = {"k": "mid", "n": int(n), "seed": int(h % (2 ** 31 - 1)), "fam": int((h >> 8) % 3), "amp": amp}
+    if as_:
+        spec["as"] = as_
+    return spec
+
+
+def _mid_sizes(tier, lo, hi_quick, hi_thorough, count, tag):
+    """Ladder + sizes aimed at the integer literals of the source + one length in the top 5 % of the range."""
+    def top(hi):
+        return int(0.95 * hi) + _hh(gen.run_seed(), "top", tag, hi) % (hi - int(0.95 * hi) + 1)
+    if tier == "quick":
+        return sorted(set(gen.size_ladder(lo, hi_quick, count, tag)) | {top(hi_quick)})
+    return sorted(set(gen.size_ladder(lo, hi_thorough, 3 * count, tag + ":t", mined_limit=16)) | set(gen.ladder(lo, hi_quick, count, tag + ":t2"))
+                  | {top(hi_quick), top(hi_thorough)})
+
+
+def _container(spec, a):
+    if spec.get("as") == "intlist":
+        return [int(v) for v in np.round(a)]  # a list of Python integers (digitiser counts)
+    return gen.as_container(spec, a)
+
+
 def _seen(spec):
     """Record spec -> (argument handed to the library, float64 array of what the library sees)."""
-    a = gen.build(spec)
-    arg = gen.as_container(spec, a)
+    a = _build(spec)
+    arg = _container(spec, a)
     return arg, np.array(arg, dtype=float)
 
 
@@ -106,9 +158,12 @@ def _pairs(draw, max_n=300):
     return {"ns": draw(gen.record_specs(**kw)), "we": draw(gen.record_specs(**kw)), "dt": draw(gen.dts(1e-3, 1.0))}
 
 
+_INT_AS = ("int", "intlist")
+
+
 def _fix_int_amp(spec):
     # integer-dtype variant: keep the rounded record non-zero
-    if spec.get("as") == "int" and "amp" in spec and spec["amp"] < 1:
+    if spec.get("as") in _INT_AS and "amp" in spec and spec["amp"] < 1:
         spec["amp"] = min(6, 1 - spec["amp"])
     return spec
 
@@ -119,9 +174,11 @@ def _make_pair(case, ctx):
     if len(ns) != len(we):  # cannot happen for generated cases; hand-written replay files only
         raise HarnessError("case outside the domain: components of different length")
     dt = case["dt"]
-    s_ns = ctx.lib(eqsig.AccSignal, arg_ns, dt)
-    s_we = ctx.lib(eqsig.AccSignal, arg_we, dt)
-    ctx.cls("ns=" + case["ns"]["k"], gen.size_class(len(ns)))
+    comp = case.get("comp", "acc")  # 'sig': plain Signal components (combine_at_angle only needs .values and .dt)
+    make = eqsig.Signal if comp == "sig" else eqsig.AccSignal
+    s_ns = ctx.lib(make, arg_ns, dt)
+    s_we = ctx.lib(make, arg_we, dt)
+    ctx.cls("ns=" + case["ns"]["k"], gen.size_class(len(ns)), "comp=" + comp)
     for sp in (case["ns"], case["we"]):
         if sp.get("as"):
             ctx.cls("as=" + sp["as"])
@@ -138,17 +195,18 @@ def _combine_cases(draw):
     _fix_int_amp(case["ns"])
     _fix_int_amp(case["we"])
     case["angle"] = draw(_angles())
+    case["comp"] = draw(st.sampled_from(["acc", "acc", "sig"]))
     return case
 
 
 @clause(CLAUSES, "combine", _combine_cases(), quick=600, thorough=2000,
-        rule="two records of equal length (all kinds, n 2..300, float/int/list) as AccSignals with one dt; angle from the specials "
+        rule="two records of equal length (all kinds, n 2..300, float/int/list) as AccSignals (one case in three: plain Signals) with one dt; angle from the specials "
              "{0, +-90, +-180, 270, +-360, 720, 30, 45, 60, 135, 1e-9}, U(-400, 400) or U(-1e4, 1e4) degrees; "
              "non-trivial = both components non-zero and the angle is not a multiple of 90",
         oracle="reference model: ns*cos(theta)+we*sin(theta) in long double, per-sample bound eps*(4+2|theta_rad|)*(|ns_k|+|we_k|); theta=0 -> ns "
-               "(exact), 90 -> we (2 eps), theta+180 -> negation (sum of both bounds); result is an AccSignal with ns.dt and n samples; "
-               "inputs not modified",
-        require={"special-angle": 0.15, "general-angle": 0.35}, min_nontrivial=0.4)
+               "(exact), 90 -> we (same bound), theta+180 -> negation (sum of both bounds); result is a signal object with ns.dt and n "
+               "samples; inputs not modified",
+        require={"special-angle": 0.15, "general-angle": 0.35, "comp=sig": 0.15}, min_nontrivial=0.4)
 def combine(case, ctx):
     s_ns, s_we, ns, we = _make_pair(case, ctx)
     angle = case["angle"]
@@ -164,7 +222,11 @@ def combine(case, ctx):
 
     def call(theta):
         out = ctx.lib(eqsig.combine_at_angle, s_ns, s_we, theta)
-        ctx.check(isinstance(out, eqsig.AccSignal), "combine_at_angle returned %s, not an AccSignal" % type(out).__name__)
+        # the statement defines the VALUES of the combination; that it comes as a signal object with the components' sampling
+        # (so that a measure can be taken of it) is what 'pair of equally sampled components' / 'measure of that combination'
+        # imply - not which class it is
+        ctx.check(hasattr(out, "values") and hasattr(out, "dt") and hasattr(out, "npts"),
+                  "combine_at_angle returned %s, not a signal object" % type(out).__name__)
         ctx.check(out.dt == dt, "combination has dt=%r, components have dt=%r" % (out.dt, dt))
         ctx.check(out.npts == n, "combination has %r samples, components have %d" % (out.npts, n))
         v = np.asarray(out.values)
@@ -183,7 +245,9 @@ def combine(case, ctx):
     v0 = call(0 if n % 2 else 0.0)
     ctx.equal(v0, ns, "combine_at_angle(theta=0) vs ns")
     v90 = call(90 if n % 2 else 90.0)
-    ctx.close(v90, we, 2 * EPS * (np.abs(ns) + np.abs(we)), "combine_at_angle(theta=90) vs we")
+    # (cos(fl(pi/2)) = 6.1e-17, not 0: the general bound at 90 degrees, eps*(4+pi)*(|ns_k|+|we_k|), also admits an implementation
+    # that forms exp(j theta) or reduces the quadrant exactly)
+    ctx.close(v90, we, _tol_combo(ns, we, 90.0), "combine_at_angle(theta=90) vs we")
     ctx.equal(s_ns.values, ns0, "ns component modified by combine_at_angle")
     ctx.equal(s_we.values, we0, "we component modified by combine_at_angle")
 
@@ -222,7 +286,14 @@ def _f_np_scalar(sig):
     return np.float64(sig.values[0]) * 2.0
 
 
+def _f_tuple_series(sig):
+    """series given as a tuple, sign sensitive -> last element"""
+    v = np.asarray(sig.values, dtype=float)
+    return (float(v[0]) - 2.0, float(np.sum(v[::2])))
+
+
 FUNCS = {
+    "tuple_series": _f_tuple_series,
     "peak_signed": _f_peak_signed,
     "last_sample": _f_last_sample,
     "cumabs": _f_cumabs,
@@ -232,12 +303,15 @@ FUNCS = {
     "cav": im.calc_cav,                      # library series
     "arias_series": im.calc_arias_intensity,  # library series through func=
 }
-FUNC_ORDER = ["last_sample", "running_sum", "peak_signed", "np_scalar", "cumabs", "npts", "cav", "arias_series"]
-PARAMS = ["pgv", "arias_intensity", "pgd", "pga"]
+FUNC_ORDER = ["last_sample", "running_sum", "peak_signed", "np_scalar", "cumabs", "npts", "cav", "arias_series", "tuple_series"]
+# parameter names: the scalar attributes of the combination and (the scan then returns one row per angle) its array-valued ones
+PARAMS = ["pgv", "arias_intensity", "pgd", "pga", "values", "velocity", "displacement", "time", "npts"]
+ARRAY_PARAMS = ("values", "velocity", "displacement", "time")
 
 
 def _measure(ctx, how, name, sig):
-    """The measure of one combination, as the statement defines it (scalar / last element of a series)."""
+    """The measure of one combination, as the statement defines it: the named attribute (whatever it holds: scalar or series), or
+    what the callable returns (a scalar, or the last element of a series)."""
     if how == "parameter":
         if name == "arias_intensity":
             return ctx.lib(im.calc_arias_intensity, sig)[-1]
@@ -274,26 +348,18 @@ def _circ_dist(a, b):
     return min(d, 360 - d)
 
 
-@clause(CLAUSES, "rotated", _rotated_cases(), quick=500, thorough=2000,
-        rule="pairs as in `combine` (n 2..200); angle_off_ns from the specials, U(-400,400) or U(-2000,2000), or omitted (0.0); "
-             "points 1..40 or omitted (100); measure = parameter in {arias_intensity, pga, pgv, pgd} | callable returning a Python "
-             "scalar, NumPy scalar, list, ndarray series (sign-sensitive and sign-insensitive ones, library calc_cav / "
-             "calc_arias_intensity) | neither; keyword and positional call forms; non-trivial = measure given, points >= 2, both "
-             "components non-zero",
-        oracle="reference model for the angles: (-off + 180*i/(points-1)) mod 360 in exact rational arithmetic, compared on the circle, "
-               "16*eps*(|off|+360); differential (exact, ==) for the values: measure of combine_at_angle(ns, we, angle[i]); sup-norm measures "
-               "also against the long-double combination; lengths = points; neither parameter nor func -> ValueError",
-        require={"how=parameter": 0.2, "how=func": 0.2, "how=neither": 0.03, "off!=0": 0.35, "points>=2": 0.5},
-        min_nontrivial=0.4)
-def rotated(case, ctx):
+def _rotated_check(case, ctx, sample=None):
+    """sample: None = every angle is checked; an iterable of indices = only those (the angles themselves are always all checked)."""
     s_ns, s_we, ns, we = _make_pair(case, ctx)
     how = case["how"]
     name = case.get("name")
     form = case.get("form", "kw")
     off = case.get("off", 0.0) if form != "default-off" else 0.0
     points = case.get("points", 100) if form != "default-points" else 100
+    n = len(ns)
     ctx.cls("how=" + how, "form=" + form, "m=" + str(name))
-    ctx.cls("off!=0" if off != 0 else "off=0", "points>=2" if points >= 2 else "points=1")
+    ctx.cls("off!=0" if off != 0 else "off=0", "points>=2" if points >= 2 else "points=1",
+            "array-parameter" if how == "parameter" and name in ARRAY_PARAMS else None)
     ctx.nt(bool(how != "neither" and points >= 2 and np.any(ns != 0) and np.any(we != 0)))
     par = name if how == "parameter" else None
     fn = FUNCS[name] if how == "func" else None
@@ -311,13 +377,14 @@ def rotated(case, ctx):
         if fn is not None:
             kw["func"] = fn
     if how == "neither":
-        ctx.raises(ValueError, eqsig.compute_rotated, *args, **kw)
+        ctx.raises(Exception, eqsig.compute_rotated, *args, **kw)  # 'no measure given' is rejected; the statement names no class
         return
     out = ctx.lib(eqsig.compute_rotated, *args, **kw)
-    ctx.check(isinstance(out, tuple) and len(out) == 2, "compute_rotated returned %r, expected (angles, values)" % (type(out),))
+    ctx.check(isinstance(out, (tuple, list)) and len(out) == 2, "compute_rotated returned %r, expected (angles, values)" % (type(out),))
     angles, values = np.asarray(out[0]), np.asarray(out[1])
     ctx.shape(angles, (points,), "angles")
-    ctx.shape(values, (points,), "values")
+    arr = how == "parameter" and name in ARRAY_PARAMS
+    ctx.shape(values, (points, n) if arr else (points,), "values")
     ctx.finite(angles, "angles")
     # the requested angles: a half circle starting at -off
     tol_a = 16 * EPS * (abs(off) + 360.0)
@@ -327,15 +394,32 @@ def rotated(case, ctx):
         want = float(want % 360)
         d = _circ_dist(float(angles[i]), want)
         ctx.check(d <= tol_a, "angle %d of %d: got %r, expected %r (mod 360) for angle_off_ns=%r" % (i, points, float(angles[i]), want, off))
-    # the values: exactly the measure of the combination at the returned angle
+    # the values: 'exactly the measure of that combination'.  The measure of the PUBLIC combination at the returned angle is the
+    # reference (declared differential); equality is demanded up to what a rounding-level difference in the combination can do
+    # to the measure (an implementation may combine at the un-reduced angle -off + 180 i/(p-1) and return it reduced mod 360):
+    # every measure used here is a sum of at most quadratic terms of the samples, so its change is bounded by
+    # 2 * (relative perturbation of the combination) * (the same measure of the envelope |ns|+|we|)
+    env_sig = eqsig.AccSignal(np.abs(ns) + np.abs(we), case["dt"])
+    env = _measure(ctx, how, name, env_sig)
+    env = np.abs(np.asarray(env, dtype=float))
+    # relative perturbation of the combination between two correct implementations: the per-sample bound of `combine` for either,
+    # at the largest angle either may work with (the un-reduced |off| + 180 degrees, or the reduced one < 360)
+    rel_all = 4 * EPS * (4.0 + 2.0 * float(_rad(abs(off) + 540.0)))
     lipschitz = (how == "parameter" and name == "pga") or (how == "func" and name in ("peak_signed", "last_sample"))
-    for i in range(points):
+    idx = range(points) if sample is None else sorted(set(int(i) for i in sample if 0 <= int(i) < points))
+    for i in idx:
         ang = angles[i]
         sig = ctx.lib(eqsig.combine_at_angle, s_ns, s_we, ang)
         want = _measure(ctx, how, name, sig)
         got = values[i]
-        ctx.check(bool(got == want), "value %d of %d (angle %r, %s=%s): got %r, measure of the combination is %r" % (
-            i, points, float(ang), how, name, got, want))
+        rel = rel_all
+        what = "value %d of %d (angle %r, %s=%s)" % (i, points, float(ang), how, name)
+        if arr:
+            ctx.close(np.asarray(got, dtype=float), np.asarray(want, dtype=float), rel * env,
+                      what + " vs the attribute of the combination")
+        else:
+            ctx.check(bool(abs(float(got) - float(want)) <= rel * float(env) + 1e-290),
+                      "%s: got %r, measure of the combination is %r (tolerance %.3g)" % (what, got, want, rel * float(env)))
         if lipschitz:
             ref = _ref_combo(ns, we, float(ang))
             if name == "pga":
@@ -346,6 +430,26 @@ def rotated(case, ctx):
                 r = ref[-1]
             t = float(np.max(_tol_combo(ns, we, float(ang))))
             ctx.close(float(got), r, t, "value %d (angle %r, %s) vs measure of ns*cos+we*sin" % (i, float(ang), name))
+        elif how == "parameter" and name == "values":
+            ctx.close(np.asarray(got, dtype=float), _ref_combo(ns, we, float(ang)), _tol_combo(ns, we, float(ang)),
+                      "row %d (angle %r, parameter 'values') vs ns*cos+we*sin" % (i, float(ang)))
+
+
+@clause(CLAUSES, "rotated", _rotated_cases(), quick=500, thorough=2000,
+        rule="pairs as in `combine` (n 2..200); angle_off_ns from the specials, U(-400,400) or U(-2000,2000), or omitted (0.0); "
+             "points 1..40 or omitted (100); measure = parameter naming a scalar attribute {arias_intensity, pga, pgv, pgd, npts} or an "
+             "array-valued one {values, velocity, displacement, time} | callable returning a Python "
+             "scalar, NumPy scalar, list, tuple, ndarray series (sign-sensitive and sign-insensitive ones, library calc_cav / "
+             "calc_arias_intensity) | neither; keyword and positional call forms; non-trivial = measure given, points >= 2, both "
+             "components non-zero",
+        oracle="reference model for the angles: (-off + 180*i/(points-1)) mod 360 in exact rational arithmetic, compared on the circle, "
+               "16*eps*(|off|+360); differential for the values: measure of combine_at_angle(ns, we, angle[i]) (whole series for an "
+               "array-valued attribute), to 4 eps (4+2 rad(|off|+540)) x the measure of the envelope |ns|+|we|; sup-norm measures and the "
+               "'values' rows also against the long-double combination; lengths = points; neither parameter nor func -> an exception",
+        require={"how=parameter": 0.2, "how=func": 0.2, "how=neither": 0.03, "off!=0": 0.35, "points>=2": 0.5, "array-parameter": 0.08},
+        min_nontrivial=0.4)
+def rotated(case, ctx):
+    _rotated_check(case, ctx)
 
 
 # ---------------------------------------------------------------------------
@@ -357,13 +461,18 @@ def _lag_strategy(steps):
                      st.sampled_from([steps - 1, -(steps - 1), 0, 1, -1]))
 
 
+_TM_AS = [None, None, None, "int", "intlist", "list"]
+
+
 @st.composite
 def _tm_cases(draw, unequal=False):
     nsig = draw(st.sampled_from([2, 2, 3, 3, 4, 4]))
     master = draw(st.sampled_from(list(range(nsig)) + list(range(1, nsig))))
     default_steps = draw(st.integers(0, 5)) == 0
-    steps = 10 if default_steps else draw(st.integers(2, 20))
-    extra = st.one_of(st.integers(2, 8), st.integers(2, 80))
+    # the search window: mostly 2..20, one case in five 21..64 (the statement puts no cap on it)
+    steps = 10 if default_steps else draw(st.one_of(st.integers(2, 20), st.integers(2, 20), st.integers(2, 20), st.integers(2, 20),
+                                                    st.integers(21, 64)))
+    extra = st.one_of(st.integers(2, 8), st.integers(2, 80), st.integers(2, 80), st.integers(60, 1500))
     if unequal:
         lens = [steps + draw(extra) for _ in range(nsig)]
         if len(set(lens)) == 1:
@@ -376,13 +485,22 @@ def _tm_cases(draw, unequal=False):
     case = {"nsig": nsig, "master": master, "steps": None if default_steps else steps, "lens": lens, "lags": lags,
             "kind": draw(st.sampled_from(["normal", "normal", "perm"])), "seed": draw(st.integers(0, 2 ** 31 - 1)),
             "fill": draw(st.sampled_from(["window", "rand", "edge"])),
-            "stype": draw(st.sampled_from(["custom", "custom", "acc", "default"])),
+            "stype": draw(st.sampled_from(["custom", "custom", "acc", "default", "mixed"])),
             "dt": draw(gen.dts(1e-3, 1.0))}
+    if case["kind"] == "perm":
+        case["as"] = draw(st.sampled_from(_TM_AS))
+    elif draw(st.integers(0, 4)) == 0:
+        case["as"] = "list"
+    if case["kind"] == "normal" and min(lens) >= steps + 16 and draw(st.integers(0, 2)) == 0:
+        # near-copies: every slave carries its own measurement noise (relative 1e-6 .. 1e-3 of the record's scatter), so the
+        # misfit is small but NOT zero at the true lag
+        case["noise"] = draw(st.integers(-6, -3))
     return case
 
 
 def _tm_build(case):
-    """-> list of float arrays (one per signal), built from one underlying record with distinct values."""
+    """-> list of float arrays (one per signal: what the library is to see), built from one underlying record with distinct
+    values; integer variants (case['as'] in int / intlist) hold integers."""
     steps = case["steps"] or 10
     lens = case["lens"]
     master = case["master"]
@@ -397,7 +515,10 @@ def _tm_build(case):
     rs = np.random.RandomState(case["seed"])
     pool = (len(lens) + 1) * total  # the record + enough independent values for every slave
     if case["kind"] == "perm":
-        base = rs.permutation(pool).astype(float) * 0.25 - pool * 0.125
+        if case.get("as") in _INT_AS:
+            base = rs.permutation(pool).astype(float) - float(pool // 2)
+        else:
+            base = rs.permutation(pool).astype(float) * 0.25 - pool * 0.125
         rec, other = base[:total], base[total:]
     else:
         base = rs.standard_normal(pool)
@@ -413,20 +534,33 @@ def _tm_build(case):
             sigs.append(m.copy())
             continue
         lag = case["lags"][j]
-        s = np.empty(nj)
-        for k in range(nj):
-            src = k - lag  # index into the master
-            if 0 <= src < nm:
-                s[k] = m[src]
-            elif case["fill"] == "window":
-                s[k] = rec[steps + src]
-            elif case["fill"] == "edge":
-                s[k] = m[0] if src < 0 else m[nm - 1]
-            else:
-                s[k] = other[oi]
-                oi += 1
-        sigs.append(s)
+        src = np.arange(nj) - lag  # index into the master
+        inside = (src >= 0) & (src < nm)
+        sj = np.empty(nj)
+        sj[inside] = m[src[inside]]
+        out = np.flatnonzero(~inside)
+        if case["fill"] == "window":
+            sj[out] = rec[steps + src[out]]
+        elif case["fill"] == "edge":
+            sj[out] = np.where(src[out] < 0, m[0], m[nm - 1])
+        else:
+            sj[out] = other[oi:oi + len(out)]
+            oi += len(out)
+        if case.get("noise") is not None:
+            sj = sj + (10.0 ** case["noise"]) * np.random.RandomState((case["seed"] + 7919 * (j + 1)) % (2 ** 31 - 1)).standard_normal(nj)
+        sigs.append(sj)
     return sigs
+
+
+def _tm_arg(case, a):
+    how = case.get("as")
+    if how == "int":
+        return np.array(a, dtype=np.int64)
+    if how == "intlist":
+        return [int(v) for v in a]
+    if how == "list":
+        return [float(v) for v in a]
+    return a.copy()
 
 
 def _tm_check(case, ctx):
@@ -437,13 +571,17 @@ def _tm_check(case, ctx):
     lags = case["lags"]
     if min(lens) < steps + 2 or any(abs(l) >= steps for l in lags):
         raise HarnessError("case outside the domain of the clause")
+    if case.get("noise") is not None and (min(lens) < steps + 16 or case["kind"] != "normal" or not -9 <= case["noise"] <= -3):
+        raise HarnessError("case outside the domain of the clause (noisy copies need >= 16 compared samples of a white record)")
     sigs = _tm_build(case)
     if sigs is None:
         ctx.cls("values-not-distinct")
         return
     ctx.cls("nsig=%d" % nsig, "master=%d" % master, "fill=" + case["fill"], "kind=" + case["kind"], "stype=" + case["stype"])
     ctx.cls("master!=0" if master != 0 else None, "nsig>=3" if nsig >= 3 else None,
-            "default-steps" if case["steps"] is None else None)
+            "default-steps" if case["steps"] is None else None, "steps>20" if steps > 20 else None,
+            "n>120" if min(lens) > 120 else None, "noisy-copy" if case.get("noise") is not None else None,
+            "as=%s" % case["as"] if case.get("as") else None, "integer-record" if case.get("as") in _INT_AS else None)
     slave_lags = [lags[j] for j in range(nsig) if j != master]
     ctx.cls("lag>0" if any(l > 0 for l in slave_lags) else None, "lag<0" if any(l < 0 for l in slave_lags) else None,
             "lag=0" if any(l == 0 for l in slave_lags) else None,
@@ -455,19 +593,22 @@ def _tm_check(case, ctx):
                 "third-shortest" if nsig >= 3 and min(lens[2:]) < min(lens[:2]) else None)
     ctx.nt(any(l != 0 for l in slave_lags))
     kw = {"master_index": master}
-    if case["stype"] != "default":
+    if case["stype"] == "mixed":
+        kw["stypes"] = [("acc" if (j + master) % 2 else "custom") for j in range(nsig)]
+    elif case["stype"] != "default":
         kw["stypes"] = case["stype"]
-    cl = ctx.lib(multiple.Cluster, [s.copy() for s in sigs], case["dt"], **kw)
+    cl = ctx.lib(multiple.Cluster, [_tm_arg(case, a) for a in sigs], case["dt"], **kw)
     if case["steps"] is None:
-        ret = ctx.lib(cl.time_match)
+        ctx.lib(cl.time_match)
     else:
-        ret = ctx.lib(cl.time_match, steps=steps)
+        ctx.lib(cl.time_match, steps=steps)
     m = sigs[master]
     nm = len(m)
     for j in range(nsig):
         v = cl.values_by_index(j)
         ctx.check(isinstance(v, np.ndarray), "values of signal %d are a %s after time_match, not an ndarray" % (j, type(v).__name__))
-        ctx.check(v.ndim == 1 and v.dtype == np.float64, "values of signal %d have shape %s dtype %s after time_match" % (j, v.shape, v.dtype))
+        # 'values remain arrays': one-dimensional numeric ndarrays (an implementation that keeps an integer record integer is fine)
+        ctx.check(v.ndim == 1 and v.dtype.kind in "fiu", "values of signal %d have shape %s dtype %s after time_match" % (j, v.shape, v.dtype))
         ctx.check(len(v) == lens[j] and cl.signal_by_index(j).npts == lens[j],
                   "length of signal %d changed from %d to %d (npts %r) (master %d, lag %d)" % (
                       j, lens[j], len(v), cl.signal_by_index(j).npts, master, lags[j]))
@@ -479,35 +620,43 @@ def _tm_check(case, ctx):
             lo, hi = 0, min(lens[j] - lag, nm)
         else:
             lo, hi = -lag, min(lens[j], nm)
-        if not np.array_equal(v[lo:hi], m[lo:hi]):
-            bad = int(np.flatnonzero(v[lo:hi] != m[lo:hi])[0]) + lo
-            ctx.fail("signal %d (lag %d, master %d, %d signals, steps %d): after time_match sample %d is %r, master has %r "
-                     "(overlap %d..%d, %d samples differ)" % (j, lag, master, nsig, steps, bad, float(v[bad]), float(m[bad]), lo, hi - 1,
-                                                               int(np.sum(v[lo:hi] != m[lo:hi]))))
-    if nsig == 2:
-        ctx.check(isinstance(ret, (int, np.integer)) and abs(int(ret)) == abs(slave_lags[0]),
-                  "time_match returned %r for a slave with lag %d" % (ret, slave_lags[0]))
+        # the lag is removed: sample k now holds what the slave had at k + lag - for an exact copy that IS the master's sample k
+        # ('the overlapping samples then coincide'), for a noisy copy the master's sample plus the slave's own noise
+        want = sigs[j][lo + lag:hi + lag]
+        if case.get("noise") is None and not np.array_equal(want, m[lo:hi]):
+            raise HarnessError("time-match generator: the slave is not a shifted copy of the master")
+        if not np.array_equal(v[lo:hi], want):
+            bad = int(np.flatnonzero(v[lo:hi] != want)[0]) + lo
+            ctx.fail("signal %d (lag %d, master %d, %d signals, steps %d%s): after time_match sample %d is %r, %s "
+                     "(overlap %d..%d, %d samples differ)" % (
+                         j, lag, master, nsig, steps, "" if case.get("noise") is None else ", noise 1e%d" % case["noise"], bad,
+                         float(v[bad]), "master has %r" % float(m[bad]) if case.get("noise") is None else
+                         "the slave's sample %d was %r (master %r)" % (bad + lag, float(want[bad - lo]), float(m[bad])),
+                         lo, hi - 1, int(np.sum(v[lo:hi] != want))))
 
 
 @clause(CLAUSES, "time-match", _tm_cases(), quick=600, thorough=2000,
-        rule="2-4 equal-length signals (n = steps+2 .. steps+80) cut from one record of pairwise distinct values (standard normal or a "
-             "scaled permutation), any master_index, steps in 2..20 or omitted (10), one lag per slave in (-steps, steps) with the extreme "
+        rule="2-4 equal-length signals (n = steps+2 .. steps+1500) cut from one record of pairwise distinct values (standard normal or a "
+             "scaled permutation; permutations also as int64 arrays / lists of Python ints / lists of floats), any master_index, steps in "
+             "2..20 (one case in five 21..64) or omitted (10), one lag per slave in (-steps, steps) with the extreme "
              "lags +-(steps-1), 0 and +-1 boosted; non-overlapping samples = record continuation | independent reals | held edge; "
-             "Signal and AccSignal clusters; non-trivial = some slave has a non-zero lag",
-        oracle="reference model: afterwards slave[k] == master[k] (==) on the overlap, every length unchanged, values float64 ndarrays, "
-               "master bit-for-bit unchanged; |return| == |lag| for two signals",
-        require={"master!=0": 0.4, "nsig>=3": 0.4, "lag>0": 0.3, "lag<0": 0.3, "lag=+-(steps-1)": 0.15, "both-signs": 0.08},
+             "one normal case in three: every slave carries its own noise of 1e-6..1e-3 (near-copies: misfit not 0 at the true lag; "
+             ">= 16 compared samples); Signal, AccSignal and mixed clusters; non-trivial = some slave has a non-zero lag",
+        oracle="reference model: afterwards slave[k] == (what the slave held at k + lag) (==) on the overlap - for exact copies that is "
+               "master[k]; every length unchanged, values one-dimensional numeric ndarrays, master bit-for-bit unchanged",
+        require={"master!=0": 0.4, "nsig>=3": 0.4, "lag>0": 0.3, "lag<0": 0.3, "lag=+-(steps-1)": 0.15, "both-signs": 0.08,
+                 "steps>20": 0.06, "n>120": 0.1, "noisy-copy": 0.06, "integer-record": 0.04},
         min_nontrivial=0.5)
 def time_match(case, ctx):
     _tm_check(case, ctx)
 
 
 @clause(CLAUSES, "time-match-unequal", _tm_cases(unequal=True), quick=400, thorough=1500,
-        rule="as `time-match`, but the signals have different lengths (each steps+2 .. steps+100); non-trivial = some slave has a "
+        rule="as `time-match`, but the signals have different lengths (each steps+2 .. steps+1500); non-trivial = some slave has a "
              "non-zero lag",
         oracle="reference model: as `time-match`; the overlap of a slave ends where either record ends",
         require={"master!=0": 0.4, "nsig>=3": 0.4, "lag>0": 0.3, "lag<0": 0.3, "slave-longer": 0.3, "slave-shorter": 0.3,
-                 "third-shortest": 0.06},
+                 "third-shortest": 0.06, "steps>20": 0.06},
         min_nontrivial=0.5)
 def time_match_unequal(case, ctx):
     _tm_check(case, ctx)
